@@ -21,6 +21,8 @@ int ft_seen_after(int id);
 void ft_arm_atexit(void);
 int ft_is_waiting(int id);
 int ft_oneshot(int (*cb)(int, int), int pre, int xp, int *seen_after);
+void ft_set_gate_fn(uintptr_t fn);
+int ft_gated_pair(int (*cb)(int, int), int pre_x, int pre_y, int xp_x, int xp_y, int first, int *out);
 void ft_set_callbacks(int (*on_idle)(int), int (*cb)(int, int));
 int count_tstates(void);
 int call_cb_from_here(int id, int arg, int kind);
@@ -132,6 +134,38 @@ int ft_oneshot(int (*cb)(int, int), int pre, int xp, int *seen_after)
     pthread_join(t, NULL);
     *seen_after = o.seen_after;
     return o.result;
+}
+
+/* Two brand-new foreign threads enter a callback; each is held at the backend's gate right
+   before it acquires the GIL (i.e. after everything the callback entry point does without the
+   GIL), then they are let through one after the other in the requested order. */
+static void (*g_arm_gate)(void *, void *);
+void ft_set_gate_fn(uintptr_t fn) { g_arm_gate = (void (*)(void *, void *))fn; }
+typedef struct { int (*cb)(int, int); int who, pre, xp, seen_after, result; sem_t *arrived, *gate; } gated_t;
+static void *gated_main(void *p)
+{
+    gated_t *o = (gated_t *)p;
+    errno = o->pre;
+    g_arm_gate(o->arrived, o->gate);
+    o->result = o->xp ? xp_cb(o->who, o->pre) : o->cb(o->who, o->pre);
+    o->seen_after = errno;
+    return NULL;
+}
+int ft_gated_pair(int (*cb)(int, int), int pre_x, int pre_y, int xp_x, int xp_y, int first, int *out)
+{
+    pthread_t tx, ty; sem_t arrived, gx, gy; gated_t x, y;
+    if (g_arm_gate == NULL) return -1;
+    sem_init(&arrived, 0, 0); sem_init(&gx, 0, 0); sem_init(&gy, 0, 0);
+    x.cb = cb; x.who = -98; x.pre = pre_x; x.xp = xp_x; x.arrived = &arrived; x.gate = &gx; x.result = x.seen_after = -1;
+    y.cb = cb; y.who = -97; y.pre = pre_y; y.xp = xp_y; y.arrived = &arrived; y.gate = &gy; y.result = y.seen_after = -1;
+    pthread_create(&tx, NULL, gated_main, &x);
+    sem_wait(&arrived);                       /* X is past the callback entry, not yet holding the GIL */
+    pthread_create(&ty, NULL, gated_main, &y);
+    sem_wait(&arrived);                       /* Y too */
+    if (first == 0) { sem_post(&gx); pthread_join(tx, NULL); sem_post(&gy); pthread_join(ty, NULL); }
+    else            { sem_post(&gy); pthread_join(ty, NULL); sem_post(&gx); pthread_join(tx, NULL); }
+    out[0] = x.result; out[1] = x.seen_after; out[2] = y.result; out[3] = y.seen_after;
+    return 0;
 }
 
 /* number of PyThreadStates of the current interpreter (declared by hand: the generated
